@@ -341,6 +341,8 @@ def jsonable(x):
         pass
     if BA is not None and isinstance(x, BA):
         return {"BlockArray": [jsonable(b) for b in x.arrays]}
+    if isinstance(x, type) and issubclass(x, np.generic):
+        return {"npdtype": np.dtype(x).name}
     if hasattr(x, "shape") and hasattr(x, "dtype"):
         a = np.asarray(x)
         if a.dtype.kind == "c":
@@ -1098,6 +1100,31 @@ def section_wrappers(env, ctx, model):
         tag = f"{npos}p{nkw}k/lens={lens}"
         run_call(env, ctx, model, "wrapper", "map", "py:rec", rec, env.py["rec:wrapped"], args, kwargs, tag)
         ctx.count(f"wrapper:distinct-lens={len(set(lens))}")
+        # the void wrapper makes the same calls in the same order (C13_map_void): record them
+        if it % 3 == 0:
+            atoms_v, jargs_v, jkw_v = args_atoms(args, kwargs)
+            ev_v = Evaluator(atoms_v, env.resolve)
+            mv = run2(model, "map", dict(fn="py:rec", args=jargs_v, kwargs=jkw_v), ev_v)
+            seen = []
+
+            def recv(*a, **k):
+                seen.append(float(rec(*a, **k)))
+
+            implv = impl_call(env._wrappers.map_void_func_over_blocks(recv), args, kwargs)
+            ctx.case({"section": "wrapper-void", "tag": tag}, ("wrapper-void", tag, it))
+            ctx.count("wrapper:void-order")
+            if mv[0] == "err":
+                goodv = implv[0] == "err" and implv[1] == mv[1]
+                want_seq = None
+            else:
+                terms = mv[1]["blk"] if "blk" in mv[1] else [mv[1]["one"]]
+                want_seq = [float(ev_v.val(t)) for t in terms]
+                goodv = implv[0] == "ok" and implv[1] is None and seen == want_seq
+            if not goodv:
+                ctx.disagree("block.mapvoid-order", {"section": "wrapper-void", "args": [jsonable(a) for a in args], "kwargs": {k: jsonable(v) for k, v in kwargs.items()}},
+                             {"calls": seen, "outcome": implv[0] if implv[0] == "ok" else implv[1]}, {"calls": want_seq} if want_seq is not None else {"err": mv[1]},
+                             oracle=lambda c, seen=list(seen), want_seq=want_seq: ({"wrapper": "map_void_func_over_blocks", "per_block_calls_made": seen, "documented": "one call per block, block 0 first", "expected_calls": want_seq}
+                                                                                  if (want_seq is not None and seen != want_seq) else None))
         # the block count is the first block argument's (positional before keyword)
         atoms, jargs, jkw = args_atoms(args, kwargs)
         nbm = model.call("numblocks", args=jargs, kwargs=jkw)
@@ -1414,6 +1441,11 @@ def section_setitem(env, ctx, model):
                 broken = "a block is not an array"
             elif len({str(b.dtype) for b in blocks}) > 1:
                 broken = "heterogeneous dtypes"
+            else:
+                # an array that is accepted must be stored as it is (not cast to the dtype of the other blocks)
+                j = k if k >= 0 else k + n
+                if isinstance(v, jnp.ndarray) and 0 <= j < n and not same(blocks[j], v):
+                    broken = f"the assigned block ({v.dtype}) was changed on assignment (stored {blocks[j].dtype})"
         agree = (m[0] == "err" and impl == ("err", m[1])) or (m[0] == "ok" and impl[0] == "ok" and len(impl[1].arrays) == len(m[1]["blk"])
                                                              and all(same_or_identical(ev.val(t), impl[1].arrays[i]) for i, t in enumerate(m[1]["blk"])))
         if broken or not agree:
@@ -1529,8 +1561,11 @@ def section_transparency(env, ctx, model):
         all_arrays = all(isinstance(v, jnp.ndarray) for v in inputs)
         transparent = impl[0] == "ok" and all(a is b for a, b in zip(impl[1].arrays, inputs))
         if not agree:
+            bad = (not all_arrays) and not transparent
+            failu = {"call": "jax.tree_util.tree_unflatten(treedef of a BlockArray, leaves)", "leaves": tag,
+                     "outcome": {"err": impl[1]} if impl[0] == "err" else [type(b).__name__ for b in impl[1].arrays], "expected": "the leaves, untouched"}
             ctx.disagree("block.unflatten", {"section": "unflatten-placeholders", "inputs": tag}, show_impl(impl) if impl[0] == "err" else [type(b).__name__ for b in impl[1].arrays],
-                         show(env, m, ev) if m[0] == "ok" else {"err": m[1]})
+                         show(env, m, ev) if m[0] == "ok" else {"err": m[1]}, oracle=(lambda c, failu=failu: failu) if bad else None)
         elif not all_arrays and not transparent:
             fail = {"call": "jax.tree_util.tree_unflatten(treedef of a BlockArray, leaves)", "leaves": tag,
                     "outcome": {"err": impl[1]} if impl[0] == "err" else [type(b).__name__ for b in impl[1].arrays], "expected": "the leaves, untouched"}
